@@ -758,13 +758,36 @@ def norm_slice_len(src):
 
 def report_sites(run, rule, inv, assume, floor=None):
     n = 0
-    for (fn, desc), s in sorted(inv.sites.items()):
+    from report import canon_desc
+    items = sorted(inv.sites.items())
+    # reviewed assumptions: exact key first; then the same function and the same construct up to the names of local
+    # variables, each assumption entry absorbing at most one site
+    chosen = {}
+    used = set()
+    for (fn, desc), s in items:
+        if s.ok:
+            continue
+        for k in (f'{rule}|{fn}|{desc}|0', f'*|{fn}|{desc}|0'):
+            if k in assume:
+                chosen[(fn, desc)] = assume[k]
+                used.add(k)
+                break
+    for (fn, desc), s in items:
+        if s.ok or (fn, desc) in chosen:
+            continue
+        cd = canon_desc(run.facts, fn, desc)
+        for k, e in assume.items():
+            kf = k.split('|')
+            if k not in used and len(kf) >= 4 and kf[1] == fn and e.get('cdesc') == cd:
+                chosen[(fn, desc)] = e
+                used.add(k)
+                break
+    for (fn, desc), s in items:
         n += 1
         if s.ok:
             run.proved(rule, fn, desc, f'{", ".join(sorted(s.how)) or "guarded"} on {s.paths} path(s)', s.loc)
         else:
-            key = f'{rule}|{fn}|{desc}|0'
-            a = assume.get(key) or assume.get(f'*|{fn}|{desc}|0')
+            a = chosen.get((fn, desc))
             if a is not None:
                 run.assumed(rule, fn, desc, a['reason'], s.loc)
             else:
